@@ -285,7 +285,7 @@ def create_node(
             )
         elif starting_symbol in global_context.grammar.alternatives:
             # Expand abstract type (Non-Terminal)
-            compatible_productions = global_context.grammar.alternatives[starting_symbol]
+            compatible_productions = list(global_context.grammar.alternatives[starting_symbol])
             while compatible_productions:
                 rule = decider.choose_production_alternatives(starting_symbol, compatible_productions, context)
                 try:
